@@ -126,3 +126,52 @@ Definition total_jobs_increment (tt_ : unit) : Z :=
 Definition jobs_completed_increment (tt_ : unit) : Z :=
   1.
 
+(* source:
+   while attempts > 0: ... attempts -= 1
+*)
+Definition loop_find_token_continues (v : Z) : bool :=
+  (0 <? v).
+
+(* source:
+   attempts -= 1
+*)
+Definition loop_find_token_next (v : Z) : Z :=
+  (v - 1).
+
+(* source:
+   while True: ... attempts -= 1 ... if attempts <= 0:
+       break
+*)
+Definition loop_find_token_reverse_continues (v : Z) : bool :=
+  (negb (((v - 1)) <=? 0)).
+
+(* source:
+   attempts -= 1
+*)
+Definition loop_find_token_reverse_next (v : Z) : Z :=
+  (v - 1).
+
+(* source:
+   while attempts > 0: ... attempts -= 1
+*)
+Definition loop_tfld_continues (v : Z) : bool :=
+  (0 <? v).
+
+(* source:
+   attempts -= 1
+*)
+Definition loop_tfld_next (v : Z) : Z :=
+  (v - 1).
+
+(* source:
+   while max_tries > 0: ... max_tries -= 1
+*)
+Definition loop_put_result_continues (v : Z) : bool :=
+  (0 <? v).
+
+(* source:
+   max_tries -= 1
+*)
+Definition loop_put_result_next (v : Z) : Z :=
+  (v - 1).
+
